@@ -187,6 +187,7 @@ def check_case(case, ctx):
     ctx.begin_case()
     op = case['op']
     fam = op['fam']
+    E.set_tolerance(case['tab'])
     batches, results, errs, states, berr = run_a(case, ctx)
     eff = [E.p_root(op, b) for b in batches]
     lens = [len(e) for e in eff]
